@@ -289,7 +289,13 @@ func (p *specParser) parseOr() (Expr, error) {
 	}
 	for p.isOp("||") {
 		p.next()
-		y, err := p.parseAnd()
+		var y Expr
+		var err error
+		if p.isID("forall") || p.isID("exists") {
+			y, err = p.parseExpr()
+		} else {
+			y, err = p.parseAnd()
+		}
 		if err != nil {
 			return nil, err
 		}
